@@ -661,7 +661,7 @@ impl InvalidLiquidToken<'_> {
     /// This is needed in order to raise the correct error message.
     fn parse_pair(
         self,
-        next_elements: &mut dyn Iterator<Item = Pair>,
+        _next_elements: &mut dyn Iterator<Item = Pair>,
     ) -> Result<Box<dyn Renderable>> {
         use pest::error::LineColLocation;
 
@@ -674,10 +674,12 @@ impl InvalidLiquidToken<'_> {
             .find(|i| invalid_token_position.line_of().is_char_boundary(*i))
             .unwrap_or(0);
 
-        let end_position = match next_elements.last() {
-            Some(element) => element.as_span().end_pos(),
-            None => invalid_token_span.end_pos(),
-        };
+        // The error text runs to the end of the input.  The remaining elements are not
+        // consumed to find it: a caller that ignores this error (a tag inside a
+        // `{% comment %}`) still needs them.
+        let input = invalid_token_span.get_input();
+        let end_position = ::pest::Position::new(input, input.len())
+            .unwrap_or_else(|| invalid_token_span.end_pos());
 
         let mut text = String::from(&invalid_token_position.line_of()[..offset_c]);
         text.push_str(invalid_token_position.span(&end_position).as_str());
